@@ -357,6 +357,14 @@ def judge_other_thread(case, r, hooks_act, out, step):
                         'the umask default is %o (umask %o)' % (fs.mode_of(OTHER_PATH), want, case.get('umask', 0o022)), **sig)
     if fs.lexists(OTHER_PATH + '.part'):
         return out.fail('concurrent-save-wrong', step, 'the other thread\'s part file is still there', **sig)
+    if hooks_act.reenter_error is not None:
+        return out.fail('concurrent-save-wrong', step, 'entering the saver object another thread is saving through raised %r '
+                        '(an OSError refusal is expected)' % (hooks_act.reenter_error,), **sig)
+    if hooks_act.reentered == 'completed':
+        return out.fail('concurrent-save-wrong', step, 'a second thread entered the saver object in the middle of a save through '
+                        'it and was not refused (default overwrite_part)', **sig)
+    if hooks_act.reentered == 'refused':
+        out.probe('same_saver_entered_twice_refused')
     return None
 
 
@@ -375,10 +383,27 @@ def _run_faulted(case, pre, plan_faults, labels, log, out, second_party=None, sp
                         fo.write(OTHER_DATA)
                 except BaseException as e:          # it is another thread: nothing propagates into this one
                     act.error = e
+                try:
+                    # ... and then tries to enter the very saver object this thread is using (a module-level
+                    # saver shared by mistake): while a save is in progress that must be refused (the part file
+                    # exists) and must leave the save in progress alone
+                    shared = getattr(sim, 'current_saver', None)
+                    if shared is not None and not case.get('overwrite_part') and sim.fs.lexists(pre.part) \
+                            and getattr(shared, 'part_file', None) is not None:
+                        try:
+                            with shared as fo2:
+                                fo2.write(b'SECOND ENTRY' if not case.get('text_mode') else 'SECOND ENTRY')
+                            act.reentered = 'completed'
+                        except OSError:
+                            act.reentered = 'refused'
+                except BaseException as e:
+                    act.reenter_error = e
                 finally:
                     sim.armed = armed
             act.fired = False
             act.error = None
+            act.reentered = None
+            act.reenter_error = None
             hooks.act = act
             return {sp_key: act}
     elif second_party:
